@@ -830,3 +830,32 @@ def zip_mixed(fns, src, nmax, which='owned_ref', name=None):
                 ex.require(s2, z3.Implies(inA, z3.Or(stt == UNINIT, stt == DROPPED)), 'already-built output element leaked on unwind', 'end(unwind)')
         ex.require(s2, ex.stat(s2, ex.V) != HELD, 'value produced by caller code lost (neither stored, dropped nor returned)', 'end')
     return finish(res, ex, t0, paths, unw)
+
+
+@guarded
+def iter_fold(fns, src, nmax, which='fold', name=None):
+    """GenericArrayIter::fold / rfold from an arbitrary position; the closure may panic at every call. Every remaining element is either handed
+    to the closure (in order) or dropped exactly once by the iterator's Drop; the accumulator is never lost."""
+    N, I, B, J = syms('N', 'index', 'index_back', 'J')
+    res = Result(name or 'iter.' + which, ['C04', 'C06', 'C03'], 'N <= %d, every position, the closure may panic at every call' % nmax)
+    ex = Exec(fns, src, J, N, nmax=nmax)
+    ex.V = Arr('F', bv(2 ** 63))
+    A = Arr('A', N)
+    st = new_state()
+    bounded(ex, st, N, nmax)
+    it = iter_state(ex, st, A, I, B, N, J)
+    fn = ex.pick(ex.index[('Iterator' if which == 'fold' else 'DoubleEndedIterator', 'GenericArrayIter', which)])
+    itv = st.get(it, ())
+    t0, paths, unw = time.time(), 0, 0
+    for (s2, kind, val) in ex.run_fn(st, fn, [itv, Opaque('init'), Opaque('F')]):
+        paths += 1
+        unw += kind == 'unwind'
+        inr = z3.And(ULE(I, J), ULT(J, B))
+        if kind == 'ret':
+            ex.require(s2, z3.Implies(inr, s2.status[A] == EXTERN), 'fold did not hand every remaining element to the closure', 'end')
+            ex.ev_extern(s2, val)
+        else:
+            ex.require(s2, z3.Implies(inr, z3.Or(s2.status[A] == EXTERN, s2.status[A] == DROPPED)), 'remaining element leaked when the closure panics', 'end(unwind)')
+        ex.require(s2, z3.Implies(z3.Not(inr), z3.Or(s2.status[A] == EXTERN, ULE(N, J))), 'an element outside the remaining range was touched', 'end')
+        ex.require(s2, ex.stat(s2, ex.V) != HELD, 'an accumulator value was lost (neither passed on, dropped nor returned)', 'end')
+    return finish(res, ex, t0, paths, unw)
